@@ -172,10 +172,17 @@ def cases(tier, seed):
 def add_extra_atoms(items, rng):
     """Junk atoms with names no topology knows, on standard residues (must be reported when deleted)."""
     out, added = [], []
+    # a few junk atoms, or junk on (nearly) every residue - every single deletion has to be reported, the tenth and
+    # the twentieth as much as the first
+    dens = rng.choice([0.15, 0.15, 0.6, 1.0])
     for it in items:
         out.append(it)
-        if isinstance(it, dict) and it["name"] == "CB" and rng.random() < 0.15:
+        if isinstance(it, dict) and it["name"] == "CB" and rng.random() < dens:
             x = dict(it, name=rng.choice(["XX1", "QQ", "CX9"]), x=it["x"] + 0.9, y=it["y"] + 0.9, z=it["z"] + 0.9)
+            out.append(x)
+            added.append((it["chain"], it["resi"], x["name"]))
+        elif isinstance(it, dict) and it["name"] == "CA" and it["rec"] == "ATOM" and dens >= 0.6 and rng.random() < dens:
+            x = dict(it, name=rng.choice(["ZZ7", "QX2"]), x=it["x"] - 0.9, y=it["y"] + 0.8, z=it["z"] - 0.9)
             out.append(x)
             added.append((it["chain"], it["resi"], x["name"]))
     pdbfmt.renumber(out)
